@@ -181,9 +181,10 @@ def alpha_rename(R, fn_lines, ann, name):
     n = 0
     for act, canon in ren:
         if act != canon:
-            if re.search(r"\b" + re.escape(canon) + r"\b", text):
+            # occurrences after `::` or `.` are path segments, methods or fields, not the local
+            if re.search(r"(?<![:.\w])" + re.escape(canon) + r"\b", "\n".join(_strip_strings(l) for l in text.split("\n"))):
                 raise LostAnchor(f"{name}: cannot rename `{act}` to `{canon}`: name already in use")
-            text = re.sub(r"\b" + re.escape(act) + r"\b", canon, text)
+            text = re.sub(r"(?<![:.\w])" + re.escape(act) + r"\b", canon, text)
             n += 1
     R.counts["X9.alpha_renamed"] = R.counts.get("X9.alpha_renamed", 0) + n
     return text.split("\n")
